@@ -136,7 +136,22 @@ class Interp:
             return fn(*args, **kwargs)
         if self.is_target(fn):
             return self.run_function(fn, args, kwargs)
+        w = getattr(fn, "__wrapped__", None)
+        if w is not None and type(fn).__name__ == "_lru_cache_wrapper" and self.is_target(w):
+            return self._lru_call(fn, w, args, kwargs)
         return fn(*args, **kwargs)
+
+    def _lru_call(self, wrapper, fn, args, kwargs):
+        """functools.lru_cache / functools.cache around a repo function: a per-path memo (reset with the shadows) looked up with solver-decided
+        equality of the arguments; a hit returns the very object stored, exactly like the real cache"""
+        memo = self.__dict__.setdefault("_shadows", {}).setdefault(("lru", id(wrapper)), [])
+        key = tuple(args) + tuple(sorted(kwargs.items()))
+        for k, v in memo:
+            if len(k) == len(key) and all(truth(V.sym_equal(a, b)) for a, b in zip(k, key)):
+                return v
+        v = self.run_function(fn, args, kwargs)
+        memo.append((key, v))
+        return v
 
     def run_function(self, fn, args, kwargs):
         node = self.fn_ast(fn)
